@@ -237,6 +237,7 @@ def build_events(h, sts, events, einfo, hid):
     events.append({"ev": "init", "pool": ktla})
     einfo.append(dict(h=h, hid=hid, idx=-1, canon=canon))
     prev_d = None
+    memo_seen = {"mf": [], "mg": []}
     for j, o in enumerate(h.ops):
         st = sts[5 + j]
         out = st.get("o")
@@ -279,7 +280,10 @@ def build_events(h, sts, events, einfo, hid):
             e["obs"] = obs_json(len(h.pool), ob)
             cur_d = ob[0]
         events.append(e)
-        einfo.append(dict(h=h, hid=hid, idx=j, canon=canon, st=st, pre=prev_d, post=cur_d))
+        einfo.append(dict(h=h, hid=hid, idx=j, canon=canon, st=st, pre=prev_d, post=cur_d,
+                          memo_seen=list(memo_seen[o["fn"]]) if o["ev"] == "memo" else []))
+        if o["ev"] == "memo":
+            memo_seen[o["fn"]].append(o["args"])
         prev_d = cur_d
         if out in ("timeout", "abort") or str(out).startswith("panic"):
             break
@@ -320,8 +324,14 @@ def validate(events, wd, per_chunk, cfg, timeout=2400):
     return mism, len(events)
 
 
+def op_keys(o):
+    """pool indices of the keys an operation names"""
+    return ([o["k"]] if "k" in o else []) + [k for k, _ in o.get("pairs", [])] + \
+        [k for k, _ in o.get("b", {}).get("pairs", [])] + list(o.get("xs", [])) + list(o.get("args", []))
+
+
 def stored_kinds(info, cls_idx):
-    """kinds of the keys stored (before / after the operation) that are one of the pool keys cls_idx"""
+    """kinds of the keys stored before / after the operation that are one of the pool keys cls_idx"""
     want = set(cvl.cj(info["canon"][i - 1]) for i in cls_idx)
     ks = []
     for d in (info.get("pre"), info.get("post")):
@@ -331,35 +341,57 @@ def stored_kinds(info, cls_idx):
 
 
 def finding_key(info, fail):
+    """names a failing component (see c09mc.name_key): group, kinds of the keys that met in one class"""
     h, o = info["h"], (info["h"].ops[info["idx"]] if info["idx"] >= 0 else {"ev": "init"})
     c, ki, cls = fail["c"], fail["ki"], fail.get("cls", [])
     canon = info["canon"]
+    used_in_cls = [cvl.kind(canon[k]) for k in op_keys(o) if (k + 1) in cls]
+    st = info.get("st") or {}
     if c.startswith("lookup."):
-        return name_key("lookup", c[7:], [cvl.kind(canon[ki - 1])] if ki else [], stored_kinds(info, cls))
+        return name_key("lookup", c[7:], [cvl.kind(canon[ki - 1])] if ki else [], stored_kinds(info, cls) + used_in_cls)
     if c in ("outcome", "result") or c.startswith("state."):
-        used = ([o["k"]] if "k" in o else []) + [k for k, _ in o.get("pairs", [])] + [k for k, _ in o.get("b", {}).get("pairs", [])]
-        own = [cvl.kind(canon[k]) for k in used if (k + 1) in cls]
-        other = stored_kinds(info, cls)
-        if not own and ki:
-            own = [cvl.kind(canon[ki - 1])]
-        st = info.get("st", {})
+        own = used_in_cls or ([cvl.kind(canon[ki - 1])] if ki else [])
         detail = "%s:%s" % (o["ev"], c if c != "outcome" else "outcome:" + str(cvl.outcome(st)))
-        return name_key("update", detail, own, other)
-    if c.startswith("fn.") or c == "memoize":
-        idxs = o.get("xs", o.get("args", []))
+        return name_key("update", detail, own, stored_kinds(info, cls))
+    if c == "memoize":
+        pos = [j for j, a in enumerate(o["args"]) if (a + 1) in cls]
+        earlier = [cvl.kind(canon[args[j]]) for args in info.get("memo_seen", []) for j in pos
+                   if j < len(args) and (args[j] + 1) in cls]
+        return name_key("memoize", "wrong-value" if st.get("o") == "ok" else str(cvl.outcome(st)),
+                        [cvl.kind(canon[ki - 1])] if ki else [], earlier)
+    if c.startswith("fn."):
+        # a list function: name the finding after two elements that the generator meant to be equal
         kinds = {}
-        for x in idxs:
+        for x in o.get("xs", []):
             kinds.setdefault(GROUP_OF[h.pool[x]], set()).add(cvl.kind(canon[x]))
         mixed = sorted(sorted(v) for v in kinds.values() if len(v) > 1)
-        name = c[3:] if c.startswith("fn.") else c
-        if o.get("fn") and c.startswith("fn."):
-            name += ":" + o["fn"]
-        st = info.get("st", {})
+        name = c[3:] + (":" + o["fn"] if o.get("fn") else "")
         detail = "wrong-value" if st.get("o") == "ok" else str(cvl.outcome(st))
         if mixed:
             return name_key(name, detail, mixed[0][:1], mixed[0][1:2])
-        return name_key(name, detail, sorted(set(cvl.kind(canon[x]) for x in idxs))[:3], [])
+        return name_key(name, detail, sorted(set(cvl.kind(canon[x]) for x in o.get("xs", [])))[:3], [])
     return "%s:%s" % (o["ev"], c)
+
+
+def event_keys(info, fails):
+    """finding keys of one mismatching event: outcome / result / memoize list one record per key of the
+    operation (the culprit is the one that meets another kind in its class), the rest one per key"""
+    out, alt = [], {}
+    for f in fails:
+        k = finding_key(info, f)
+        if f["c"] in ("outcome", "result", "memoize"):
+            alt.setdefault(f["c"], []).append((k, f))
+        else:
+            out.append((k, f))
+    for c, cands in alt.items():
+        cross = [x for x in cands if x[0].startswith("cross:")]
+        out.insert(0, (cross or cands)[0])
+    seen, res = set(), []
+    for k, f in out:
+        if k not in seen:
+            seen.add(k)
+            res.append((k, f))
+    return res
 
 
 def drive(rep, tier, seed, wd, mutant=None):
@@ -387,12 +419,7 @@ def drive(rep, tier, seed, wd, mutant=None):
         h = info["h"]
         j = info["idx"]
         steps = [s["src"] for s in cases[info["hid"]]["steps"][:6 + max(j, 0)]]
-        seen = set()
-        for fail in (exp or {}).get("fails", []):
-            key = finding_key(info, fail)
-            if key in seen:
-                continue
-            seen.add(key)
+        for key, fail in event_keys(info, (exp or {}).get("fails", [])):
             what = "%s (component %s%s)" % (steps[-1], fail["c"], ", key " + h.pool[fail["ki"] - 1] if fail["ki"] else "")
             lim.mismatch(key, "history %d, operation %d: %s; observed %s" % (
                 info["hid"], j, what, json.dumps(info.get("st", {}).get("v", info.get("st", {}).get("e")))[:200]),
@@ -406,8 +433,7 @@ def drive(rep, tier, seed, wd, mutant=None):
             continue
         h, o = info["h"], info["h"].ops[info["idx"]]
         per_op[o["ev"]] = per_op.get(o["ev"], 0) + 1
-        used = ([o["k"]] if "k" in o else []) + [k for k, _ in o.get("pairs", [])] + \
-               [k for k, _ in o.get("b", {}).get("pairs", [])] + list(o.get("xs", [])) + list(o.get("args", []))
+        used = op_keys(o)
         stored = set()
         for d in (info.get("pre"),):
             if d and d.get("t") == "dict":
